@@ -24,7 +24,7 @@ COMPONENTS = {"real": ["setigen.voltage.antenna.MultiAntennaArray / Antenna", "s
                        "BackgroundDataStream"], "stub": ["entropy seam (tripwire only)"]}
 ASSUMPTIONS = C10.ASSUMPTIONS
 PROBES = ["delays_omitted", "delays_all_zero", "delays_unsorted", "delays_repeated", "cache_carry_over",
-          "reset_between_requests", "request_just_above_max_delay", "two_pols"]
+          "reset_between_requests", "request_just_above_max_delay", "two_pols", "rejected_request"]
 
 
 def generate(rng, tier):
@@ -67,6 +67,9 @@ def generate(rng, tier):
         r = rng.random()
         if r < 0.7:
             ops.append({"op": "get", "n": maxd + rng.choice([1, 1, 2, 3, 7, 16, 50, 200, 1000])})
+        elif r < 0.74 and maxd > 0:
+            # a request the array must reject (not larger than the largest delay): it must leave no trace
+            ops.append({"op": "reject_get", "n": rng.randint(1, maxd)})
         elif r < 0.8:
             ops.append({"op": "set_time", "t": rng.choice([0.0, 4.0, 100.5]) if dyadic else rng.choice([0.0, 7.3, 100.0])})
         elif r < 0.9:
@@ -230,6 +233,19 @@ def execute(sc, ctx):
             if gets_in_obs >= 2:
                 ctx.nontrivial = True
             ctx.check(not arr.start_obs, "clock", "C15/clock/start_obs_flag", "start_obs still set after a request")
+        elif op["op"] == "reject_get":
+            try:
+                arr.get_samples(op["n"])
+                raised = False
+            except Exception:
+                raised = True
+            ctx.event("reject_get", raised)
+            if raised:
+                ctx.fired("rejected_request")
+            else:
+                # accepted although not larger than the largest delay: outside the statement; stop judging this run
+                ctx.hit("undersized_request_accepted")
+                break
         else:
             if op["op"] == "set_time":
                 arr.set_time(op["t"])
